@@ -142,8 +142,8 @@ PROPS = {
                  "ApplyFuncIfNoError by differential run incl. the partial state of panicking blocks.",
  },
  "C15": {
-  "modules": ["OsmoVerif.Props.C15", "OsmoVerif.Props.TieGenAccum"],
-  "min_theorems": 15,
+  "modules": ["OsmoVerif.Props.C15", "OsmoVerif.Props.TieGenAccum", "OsmoVerif.Props.TieGenAccumOps"],
+  "min_theorems": 39,
   "fingerprints": ["Accum.*"],
   "engines": [{"name": "accum", "kind": "pure", "n": {"quick": 200000, "thorough": 1500000}, "shards": {"quick": 4, "thorough": 16}}],
   "rule": "independent histories (reset) of 20-250 API calls on the real accum package over a MemDB store: <=3 accumulators, <=6 position names, "
